@@ -337,7 +337,16 @@ def _core_job(args):
                 cc = np.where(md == 0, 0.0, (tp - smat) / (0.015 * np.where(md == 0, 1, md)))
                 cc[np.isnan(smat)] = np.nan
             if sname not in ('constant',):
-                B.eq('cci', ta.cci(c, period=p, sequential=True), cc, case, rel=1e-6)
+                # the numerator tp - mean(tp) is a difference at the price level: its float error, divided by 0.015 * md, bounds what
+                # any float implementation can agree on (negligible at ordinary prices, about 1e-5 on the huge-price/small-move series)
+                gc = np.asarray(ta.cci(c, period=p, sequential=True), dtype=float)
+                B.n += 1
+                with np.errstate(divide='ignore', invalid='ignore'):
+                    ctol = 1e-6 * np.abs(cc) + 64 * 2.3e-16 * float(np.max(np.abs(tp))) / (0.015 * np.where(md > 0, md, np.inf)) + 1e-9
+                okc = (np.isnan(gc) & np.isnan(cc)) | (np.abs(gc - cc) <= ctol)
+                if gc.shape != cc.shape or not okc.all():
+                    i = int(np.where(~okc)[0][0]) if gc.shape == cc.shape else -1
+                    B.bad('definition', 'cci', {}, case, 'cci %s: index %d is %r, the definition gives %r' % (case.get('params'), i, float(gc[i]), float(cc[i])))
             # stochastic fast %K
             sf = ta.stochf(c, fastk_period=p, fastd_period=3, fastd_matype=0, sequential=True)
             with np.errstate(divide='ignore', invalid='ignore'):
